@@ -3,6 +3,10 @@ C05 — sequential pipe stages emit exactly the list image of their input, in or
 
 Part 1 (this section): the sequential meaning of every stage (`Stage.run`, the fold of the Go
 loop body over the consumed list) is the corresponding list function — for all inputs.
+Part 3 (Props/C05Gen.lean): the same statements over the definitions REGENERATED from pipe/pipe.go and
+pipe/function.go on every run (go/xlate family `stages`): `*_gen` (Props/Stage/*.lean) prove the regenerated loop
+bodies, deferred sends, capacities and close orders equal to the hand-written `Model/Stages`, `Model/StageCfg`;
+`*_network_gen` restate the network theorems for the regenerated stage on the regenerated pool.
 Part 2 (network section, below): in every reachable state of the one-worker pool, under every
 schedule and every capacity, delivered ++ buffered is a prefix of that meaning of everything
 sent, and equals it once the worker has left with its input closed (uses Golem.Lemmas.PoolInv).
@@ -192,7 +196,7 @@ theorem take_network (n : Nat) (inCap : Nat) {p : Pool Int α α}
     p.delivered 0 ++ (p.outs 0).buf = (p.sent 0).take n := by
   cases n with
   | zero =>
-    have hr' : Reachable (takeS (α := α)) (Pool.init 0 (fun _ => 0) (0 : Int) (fun _ => inCap) (fun _ => inCap) [0] false) p := by
+    have hr' : Reachable (takeS (α := α)) (Pool.init 0 (fun _ => 0) (0 : Int) (fun _ => inCap) (fun k => ([inCap] : List Nat).getD k 0) [0] false) p := by
       simpa [takePool] using hr
     have hI := inv_reachable takeS 0 _ (0 : Int) _ _ [0] false (by decide) hr'
     have hn : p.nW = 0 := by have := reachable_nW hr'; simpa [Pool.init] using this
@@ -204,7 +208,7 @@ theorem take_network (n : Nat) (inCap : Nat) {p : Pool Int α α}
     simp [this] at h2
     simp [h2]
   | succ m =>
-    have hr' : Reachable (takeS (α := α)) (pipePool ((m + 1 : Nat) : Int) inCap (fun _ => inCap) [0] false) p := by
+    have hr' : Reachable (takeS (α := α)) (pipePool ((m + 1 : Nat) : Int) inCap (fun k => ([inCap] : List Nat).getD k 0) [0] false) p := by
       have hpos : ¬ (((m + 1 : Nat) : Int) ≤ 0) := by omega
       unfold takePool at hr
       rw [if_neg hpos] at hr
@@ -222,3 +226,4 @@ theorem fold_network (c : α → α → α) (e : α) (inCap : Nat) (outCap : Nat
   simpa [(fold_spec c e _).1, (fold_spec c e _).2] using h0
 
 end Golem.Props.C05
+
